@@ -211,8 +211,43 @@ class C01(Prop):
     def strategy(self, tier):
         return case_strategy(WEIGHTS, 40 if tier == "quick" else 120, odd_positions=True)
 
+    def fixed_cases(self, tier):
+        from vf import matrix
+        return matrix.bulk_cases()
+
+    def run_bulk(self, res, params):
+        """one bulk removal of the enumerated family (vf/matrix.py): consistent links whatever happens"""
+        from vf import matrix
+        import spydrnet as sdn
+
+        sdn.namespace_manager.default = "DEFAULT"
+        sc = matrix.build_bulk(params)
+        U = ops.Universe()
+        U.absorb(sc["netlist"])
+        for x in sc["keep"]:
+            U.absorb(x)
+        U.refresh_outer()
+        pre = check_links(U)
+        if pre:
+            raise RuntimeError("bulk scene inconsistent: %r" % pre[:3])
+        try:
+            sc["call"]()
+            outcome = "accepted"
+        except Exception as e:  # noqa
+            outcome = "refused:" + type(e).__name__
+        U.refresh_outer()
+        res.label("bulk-family", "bulk-" + outcome.split(":")[0])
+        res.nontrivial = True
+        for code, detail in check_links(U):
+            res.violate("C01:%s:after:bulk-%s:%s" % (code, sc["kind"], outcome.split(":")[0]),
+                        "family %r (%s): %s" % (params, outcome, detail))
+            break
+        return res
+
     def run(self, case):
         res = Result()
+        if "bulk" in case:
+            return self.run_bulk(res, case["bulk"])
         U = build_universe(case)
         mon = LinkMonitor(res, "C01")
         pre = check_links(U)
